@@ -167,6 +167,7 @@ fn nopanic_case(st: &mut Stats, _job: usize, c: &Case) {
         st.calls += 1;
         if c.int.len() + c.frac.len() > 19 {
             st.nontrivial += 1;
+            value::note_nontrivial(c);
         }
         match real::parse::<F>(c.int, c.frac, c.exp) {
             Err(m) => st.violation(mk_viol(c, F::FMT, "panic", format!("panic: {}", m), "a value".into())),
@@ -191,7 +192,7 @@ pub fn c04(a: &Args) -> (Stats, String) {
     let mut rep = Vec::new();
     for (name, jobs) in fams {
         let t = Timer::new();
-        let st = run_jobs(&jobs, nopanic_case, |_s, _j| {});
+        let st = run_jobs(&jobs, nopanic_case, |_s, _j| value::flush_distinct());
         rep.push(report(name, jobs.len(), &st, &t));
         total.merge(st);
     }
@@ -244,6 +245,10 @@ pub fn c05(a: &Args) -> (Stats, String) {
             *st.by_fam.entry(c.fam).or_insert(0) += 1;
             if st.samples.len() < 4 && st.cases % 8191 == 1 {
                 st.sample(case_sample(c));
+            }
+            if c.int.len() + c.frac.len() > 15 || c.exp.abs() > 22 {
+                st.nontrivial += 1;
+                value::note_nontrivial(c);
             }
             let mut h = DIGEST.with(|d| d.get());
             let mut mix = |x: u64| {
@@ -525,6 +530,7 @@ pub fn c15(a: &Args) -> (Stats, String) {
                     let slow = sig_digits(c) > 19;
                     if slow {
                         st.nontrivial += 1;
+                        value::note_nontrivial(c);
                     }
                     if delta != 0 {
                         st.bump("calls_that_allocated");
